@@ -95,6 +95,31 @@ def alphabet(full=True):
     return ops
 
 
+# a second key alphabet: two folded keys that str.lower() keeps apart and str.casefold() merges
+KEYMAP2 = {"a": "ma\u00dfe", "A": "MA\u00dfE", "b": "masse", "B": "MASSE"}
+
+
+def translate(ops, ks):
+    """the operation alphabet over the second key alphabet (ks=1)"""
+    if not ks:
+        return ops
+
+    def tr(x):
+        if isinstance(x, str):
+            return KEYMAP2.get(x, x)
+        if isinstance(x, tuple):
+            return tuple(tr(y) for y in x)
+        return x
+
+    return [(op[0],) + tuple(tr(x) for x in op[1:]) for op in ops]
+
+
+def respell(k, how):
+    """another spelling of the same lower-cased key (str.upper() of a sharp s leaves the lower() class: keep such keys as they are)"""
+    alt = getattr(k, how)()
+    return alt if alt.lower() == k.lower() else k
+
+
 def val(vi):
     return copy.deepcopy(VALS[vi])
 
@@ -233,13 +258,13 @@ def apply_impl(d, op, CI):
                 facts.append(all(c[k] is d[k] for k in list(d.keys())))
             return canon(facts), c
         if name == "reconstruct_dict":
-            c = CI(d.default_factory, collections.OrderedDict((k.upper(), v) for k, v in d.items()))
+            c = CI(d.default_factory, collections.OrderedDict((respell(k, 'upper'), v) for k, v in d.items()))
             return None, c
         if name == "reconstruct_pairs":
-            c = CI(d.default_factory, [(k.title(), v) for k, v in d.items()])
+            c = CI(d.default_factory, [(respell(k, 'title'), v) for k, v in d.items()])
             return None, c
         if name == "reconstruct_kwargs":
-            c = CI(d.default_factory, **{k.upper(): v for k, v in d.items()})
+            c = CI(d.default_factory, **{respell(k, 'upper'): v for k, v in d.items()})
             return None, c
         if name == "keys":
             return canon([list(d.keys()), list(d), [v for v in d.values()] == [v for _, v in d.items()], list(reversed(d))]), d
@@ -365,7 +390,7 @@ def record(res, factory, hist, div):
 
 # ---------------------------------------------------------------- exploration
 def units(tier):
-    us = [("closure", f) for f in (True, False)]
+    us = [("closure", f) for f in (True, False)] + [("closure", f, 1) for f in (True, False)]
     depth = 3
     ops = alphabet(True)
     # unmerged: partition by first op
@@ -388,7 +413,7 @@ def run_unit(unit):
     res = R.new_result()
     if unit[0] == "closure":
         factory = unit[1]
-        ops = alphabet(True)
+        ops = translate(alphabet(True), unit[2] if len(unit) > 2 else 0)
         d, CI = fresh(factory)
         seen = {impl_state(d, CI): ()}
         frontier = collections.deque([()])
@@ -439,7 +464,7 @@ def describe(tier):
         "rule": "state = operation history on a fresh real dict; canonical state = (class, factory, ordered items with deep value forms, instance attrs); "
                 "closure applies every operation of the alphabet in every reachable state; unmerged mode runs every sequence of the given depth",
         "bounds": {
-            "key_spellings": KEYS, "values": [repr(v) for v in VALS],
+            "key_spellings": KEYS, "second_key_alphabet (closure)": sorted(KEYMAP2.values()) + ["layers", "Layers"], "values": [repr(v) for v in VALS],
             "operations_full": len(alphabet(True)), "operations_reduced": len(alphabet(False)),
             "unmerged_depth": 3 if tier == "quick" else "3 (full alphabet) and 4 (reduced alphabet)",
             "closure": "complete (until no new canonical state)",
